@@ -53,10 +53,20 @@ pub fn shim() -> Option<String> {
 }
 
 /// Run with a working directory; `hash_seed` activates the deterministic-seed shim.
+static VERBOSE: std::sync::atomic::AtomicBool = std::sync::atomic::AtomicBool::new(false);
+
+/// While on, every CLI run gets `-v` (progress messages on stderr): one more configuration under which results must not change.
+pub fn set_verbose(on: bool) {
+    VERBOSE.store(on, std::sync::atomic::Ordering::Relaxed);
+}
+
 pub fn run(args: &[&str], cwd: &str, hash_seed: Option<u64>) -> CliOut {
     // every CLI run is bounded: a command that hangs is killed and shows up as exit -9
     let mut c = Command::new("timeout");
     c.args(["-s", "KILL", &cli_timeout_s().to_string()]).arg(exe());
+    if VERBOSE.load(std::sync::atomic::Ordering::Relaxed) {
+        c.arg("-v");
+    }
     c.args(args).current_dir(cwd).stdin(Stdio::null()).stdout(Stdio::piped()).stderr(Stdio::piped());
     c.env_remove("LD_PRELOAD");
     c.env("RUST_BACKTRACE", "0");
